@@ -385,6 +385,9 @@ def check(ctx):
                 ctx.oblige("R-C06.3", f"{q}: {alpha_norm(n)}", ok, sample={"rule": "R-C06.3", "function": q, "construct": alpha_norm(n), "classes lacking it": missing, "verdict": "guarded / total" if ok else "UNGUARDED"})
                 if not ok:
                     viol("R-C06.3", mod, q, n, f"hetero:{q}:{alpha_norm(n)}", f"`{alpha_norm(n)}` reads .{n.attr} of a type-specifier list element, but the list can hold {missing} nodes which have no such attribute, and no isinstance test guards the access: AttributeError escapes")
+    # (b1) the _Atomic(type-name) splice reads and writes attributes of the spliced-in declarator: every declarator class that
+    #      _parse_atomic_specifier lets through must have them (an array or function declarator has no `quals`)
+    _atomic_splice_attrs(ctx, viol)
     # (b2) conversions of input text that can raise ValueError (int / float of a matched string: CPython limits the length of the
     #      digit string, rejects suffixes) are made inside a try that handles ValueError
     for mod, q, fn in funcs:
@@ -670,6 +673,58 @@ def _is_partial_subscript(n, fn):
     if _is_text_var(n.value, fn):
         return True
     return False
+
+
+DECLARATOR_CLASSES = ("TypeDecl", "PtrDecl", "ArrayDecl", "FuncDecl")      # what a type name's `type` can be (results of _type_modify_decl)
+
+
+def _atomic_splice_attrs(ctx, viol):
+    px, tx, cm = S.module("c_parser"), S.module("ast_transforms"), S.module("c_ast")
+    fx = tx.functions.get("_fix_atomic_specifiers_once")
+    pa = px.methods("CParser").get("_parse_atomic_specifier")
+    if fx is None or pa is None:
+        raise AnalysisError("anchors _fix_atomic_specifiers_once / _parse_atomic_specifier vanished")
+    slots = {}
+    for cname in DECLARATOR_CLASSES:
+        c = cm.classes.get(cname)
+        if c is None:
+            raise AnalysisError(f"declarator class {cname} is not defined in c_ast.py")
+        for st in c.body:
+            if isinstance(st, ast.Assign) and any(isinstance(t, ast.Name) and t.id == "__slots__" for t in st.targets):
+                slots[cname] = {x.value for x in st.value.elts if isinstance(x, ast.Constant)}
+    # classes the specifier production lets through: a guard `if isinstance(typ.type, (A, B)): self._parse_error(...)` removes A and B
+    allowed = set(DECLARATOR_CLASSES)
+    for n in ast.walk(pa):
+        if isinstance(n, ast.If):
+            t, neg = n.test, False
+            if isinstance(t, ast.UnaryOp) and isinstance(t.op, ast.Not):
+                t, neg = t.operand, True
+            if isinstance(t, ast.Call) and isinstance(t.func, ast.Name) and t.func.id == "isinstance" and len(t.args) == 2 and S.unparse(t.args[0]).endswith(".type") \
+                    and any(isinstance(c, ast.Call) and isinstance(c.func, ast.Attribute) and c.func.attr == "_parse_error" for s_ in n.body for c in ast.walk(s_)):
+                named = {S.unparse(c).split(".")[-1] for c in (t.args[1].elts if isinstance(t.args[1], ast.Tuple) else [t.args[1]])}
+                allowed = (allowed & named) if neg else (allowed - named)
+    # names that hold the spliced-in declarator: bound from <x>.type of the Typename found by the search loop, directly or through a copy
+    holders = set()
+    for n in ast.walk(fx):
+        if isinstance(n, ast.Assign) and len(n.targets) == 1 and isinstance(n.targets[0], ast.Name):
+            v = n.value
+            if isinstance(v, ast.Call) and v.args and S.unparse(v.func) in ("copy.deepcopy", "copy.copy", "deepcopy", "copy"):
+                v = v.args[0]
+            if isinstance(v, ast.Attribute) and v.attr == "type" and isinstance(v.value, ast.Name) and v.value.id == "node":
+                holders.add(n.targets[0].id)
+    if not holders:
+        return            # the splice no longer goes through a local: nothing this rule can say
+    guarded_attrs = set()
+    for n in ast.walk(fx):
+        if isinstance(n, ast.Attribute) and isinstance(n.value, ast.Name) and n.value.id in holders:
+            if _guarded_by_isinstance(n, fx):
+                continue
+            lacking = sorted(c for c in allowed if n.attr not in slots.get(c, set()))
+            ok = not lacking
+            ctx.oblige("R-C06.3", f"_fix_atomic_specifiers_once: .{n.attr} of the spliced declarator", ok, sample={"rule": "R-C06.3", "function": "_fix_atomic_specifiers_once", "construct": S.unparse(n), "declarator classes let through by _parse_atomic_specifier": sorted(allowed), "classes lacking it": lacking})
+            if not ok:
+                viol("R-C06.3", tx, "_fix_atomic_specifiers_once", n, f"atomic-splice:{n.attr}:{','.join(lacking)}", f"`{S.unparse(n)}` is evaluated for the declarator inside _Atomic( type-name ), and _parse_atomic_specifier lets {lacking} declarators "
+                     f"through, which have no `{n.attr}` attribute: AttributeError escapes from parse() instead of ParseError (e.g. `_Atomic(int(void)) x;`)")
 
 
 def _min_tuple_len(cls, mname, stack):
